@@ -202,8 +202,9 @@ func (c *C10Case) marked(i int) *C10Case {
 	cp := *c
 	cp.Lines = append([]C10Line(nil), c.Lines...)
 	for j := range cp.Lines {
-		if l := &cp.Lines[j]; l.Kind == "doc" && strings.HasPrefix(l.Text, "{") {
-			l.Text = fmt.Sprintf(`{"rq":%d,`, i) + l.Text[1:]
+		if l := &cp.Lines[j]; l.Kind == "doc" && strings.HasPrefix(strings.TrimLeft(l.Text, " \t"), "{") {
+			k := strings.IndexByte(l.Text, '{')
+			l.Text = l.Text[:k] + fmt.Sprintf(`{"rq":%d,`, i) + l.Text[k+1:]
 		}
 	}
 	return &cp
@@ -707,7 +708,7 @@ func GenC10(seed uint64, thorough bool, maxDoc int) *C10Case {
 		l := C10Line{Kind: "doc", CRLF: r.Bool(0.2)}
 		switch x := r.Float64(); {
 		case x < badness/3:
-			l.Kind, l.Text = "invalid", []string{`{"k0":"v"`, `{"k0":}`, `{"k0" "v"}`, `{k0:1}`}[r.Intn(4)]
+			l.Kind, l.Text = "invalid", []string{`{"k0":"v"`, `{"k0":}`, `{"k0" "v"}`, `{k0:1}`, `[1,2`, `"unterminated`, `nul`, `12x`, `}`, `tru`, ` {"k0":"v"`}[r.Intn(11)]
 		case x < badness:
 			l.Kind, l.Text = "nonobject", []string{`[1,2,3]`, `"just a string"`, `42`, `null`, `true`}[r.Intn(5)]
 		case x < badness*1.5:
@@ -742,6 +743,10 @@ func GenC10(seed uint64, thorough bool, maxDoc int) *C10Case {
 				l.Text += first
 			}
 			l.Text += "}"
+			if r.Bool(0.06) {
+				// JSON allows whitespace around the value: still a well-formed object line
+				l.Text = []string{" ", "\t", "  "}[r.Intn(3)] + l.Text + []string{"", " ", "\t"}[r.Intn(3)]
+			}
 			// stay clear of the limit itself: whether a line of exactly the limit is "within" it depends on its
 			// line terminator in the reader; lines are either comfortably below or clearly above
 			if n := len(l.Text); n >= c.MaxDocSize-50 && n <= c.MaxDocSize+10 {
